@@ -27,12 +27,14 @@ func plan(tier string, seed uint64) []run {
 			{"two users, synchronisation alphabet", Params{Seed: seed, Kinds: sync}, 4, 10 * time.Minute},
 			{"one user, every edit kind, eviction, removal, reopen (B idle)", Params{Seed: seed, Kinds: local, Users: "A"}, 4, 10 * time.Minute},
 			{"two users, full alphabet", Params{Seed: seed}, 3, 10 * time.Minute},
+			{"an operation pending on a loaded bug across pulls (A stage/comment/pull, B comment/push)", Params{Seed: seed, Kinds: "stage,comment,pull", KindsB: "comment,push"}, 5, 3 * time.Minute},
 		}
 	}
 	return []run{
 		{"two users, synchronisation alphabet", Params{Seed: seed, Kinds: sync}, 5, 20 * time.Minute},
 		{"one user, every edit kind, eviction, removal, reopen (B idle)", Params{Seed: seed, Kinds: local, Users: "A"}, 5, 25 * time.Minute},
 		{"two users, full alphabet", Params{Seed: seed}, 4, 25 * time.Minute},
+		{"an operation pending on a loaded bug across pulls (A stage/comment/pull, B comment/push)", Params{Seed: seed, Kinds: "stage,comment,pull", KindsB: "comment,push"}, 7, 10 * time.Minute},
 	}
 }
 
